@@ -189,6 +189,17 @@ func c17One(c *Ctx, m *Model, cs cnCase) {
 		rep.Fail(kind, nil, cs, d)
 		return
 	}
+	if !cs.CloseEarly {
+		// once failures have been healed and everything has settled, a subscription is either over or its latest run
+		// succeeded: one whose run failed and that is neither closed nor retried is a zombie (it keeps its id and
+		// its place under the subscription limit)
+		for _, g := range c02Split(res.Events) {
+			if !g.ended && g.execs > 0 && g.lastExec > g.lastResult {
+				rep.Fail("impl_ne_spec", nil, cs, map[string]interface{}{"what": "at quiescence a subscription is still registered although its last run failed and it is not being retried", "id": g.id, "query": g.query})
+				return
+			}
+		}
+	}
 	var reader int64
 	for _, e := range res.Events {
 		if e.Kind == "in" {
@@ -291,6 +302,25 @@ func runC17(c *Ctx) error {
 		cs := cnCase{Seed: c.Rng.U64(), Actions: cnGenActions(c.Rng, 3+c.Rng.Intn(14))}
 		if c.Rng.Chance(0.25) {
 			cs.MaxSubs = 2
+		}
+		if c.Rng.Chance(0.35) {
+			// slow resolvers, failures of every kind, and the socket closed while runs are in flight
+			cs.SlowUs = 100 + c.Rng.Intn(1500)
+			cs.CloseEarly = c.Rng.Chance(0.7)
+			for k := range cs.Actions {
+				if cs.Actions[k].Op == "fail" {
+					cs.Actions[k].Arg = int64(1 + c.Rng.Intn(5))
+				}
+			}
+			if c.Rng.Chance(0.6) {
+				cs.Actions = append(cs.Actions, cnAction{Op: "fail", Arg: int64(1 + c.Rng.Intn(5))}, cnAction{Op: "subscribe", ID: 1 + c.Rng.Intn(3), Query: 4})
+			}
+			if c.Rng.Chance(0.5) {
+				// somewhere in the middle: a subscription whose run reports a cancellation, then time, then healing
+				at := c.Rng.Intn(len(cs.Actions) + 1)
+				ins := []cnAction{{Op: "fail", Arg: 5}, {Op: "subscribe", ID: 1 + c.Rng.Intn(3), Query: 4}, {Op: "pause", Arg: 3000}, {Op: "heal"}}
+				cs.Actions = append(append(append([]cnAction{}, cs.Actions[:at]...), ins...), cs.Actions[at:]...)
+			}
 		}
 		c17One(c, m, cs)
 	}
